@@ -430,3 +430,42 @@ V('C17', 'benign-target-range-split', CORE, "    if not (0 < target <= coreparam
 V('C20', 'benign-seed-operands-swapped', BLOOM, '((nHashNum * 0xFBA4C795) + self.nTweak) & 0xFFFFFFFF', '(self.nTweak + 0xFBA4C795 * nHashNum) & 0xFFFFFFFF', 'SILENT', scope='CBloomFilter.bloom_hash')
 V('C09', 'benign-from-tx-explicit-loops', CORE, "        vin = [CMutableTxIn.from_txin(txin) for txin in tx.vin]\n        vout = [CMutableTxOut.from_txout(txout) for txout in tx.vout]", "        vin = [CMutableTxIn.from_txin(i) for i in tx.vin]\n        vout = [CMutableTxOut.from_txout(o) for o in tx.vout]", 'SILENT', scope='CMutableTransaction.from_tx')
 V('C08', 'benign-pushdata-bounds-as-decimals', SCRIPT, "        if len(d) < 0x4c:\n            return bytes([len(d)]) + d # OP_PUSHDATA\n        elif len(d) <= 0xff:", "        if len(d) < 76:\n            return bytes([len(d)]) + d # OP_PUSHDATA\n        elif len(d) < 256:", 'SILENT', scope='CScriptOp.encode_op_pushdata')
+
+# ------------------------------------------------------------------------------------------------ EFFECT rule (Cxx.Z1) and the rules added after the third round
+V('C01', 'serialize-merges-into-default-params', SER, "        f = BytesIO()\n        self.stream_serialize(f, **params)\n        return f.getvalue()",
+  "        params.setdefault('include_witness', True)\n        f = BytesIO()\n        self.stream_serialize(f, **params)\n        return f.getvalue()", 'C01.Z1', scope='Serializable.serialize')
+V2('C02', 'txid-cached-on-all-transactions', [(CORE, "    __slots__ = ['nVersion', 'vin', 'vout', 'nLockTime', 'wit']\n\n    def __init__(self, vin=(), vout=(), nLockTime=0, nVersion=1, witness=CTxWitness()):\n        \"\"\"Create a new transaction\n",
+                                                "    __slots__ = ['nVersion', 'vin', 'vout', 'nLockTime', 'wit', '_cached_GetTxid']\n\n    def __init__(self, vin=(), vout=(), nLockTime=0, nVersion=1, witness=CTxWitness()):\n        \"\"\"Create a new transaction\n", None),
+                                               (CORE, "            txid = Hash(self.serialize())\n        return txid", "            txid = Hash(self.serialize())\n        object.__setattr__(self, '_cached_GetTxid', txid)\n        return txid", 'CTransaction.GetTxid')], 'C02.Z1')
+V2('C16', 'pow-targets-memoised-across-chains', [(CORE, "def CheckProofOfWork(hash, nBits):", "_targets = {}\n\ndef CheckProofOfWork(hash, nBits):", None),
+                                                  (CORE, "    target = uint256_from_compact(nBits)\n\n    # A compact value with the sign bit set denotes a negative target\n    if nBits & 0x00800000:\n        raise CheckProofOfWorkError(\"CheckProofOfWork() : nBits negative\")\n\n    # Check range\n    if not (0 < target <= coreparams.PROOF_OF_WORK_LIMIT):\n        raise CheckProofOfWorkError(\"CheckProofOfWork() : nBits below minimum work\")\n",
+                                                   "    target = _targets.get(nBits)\n    if target is None:\n        target = uint256_from_compact(nBits)\n        if nBits & 0x00800000:\n            raise CheckProofOfWorkError(\"CheckProofOfWork() : nBits negative\")\n        if not (0 < target <= coreparams.PROOF_OF_WORK_LIMIT):\n            raise CheckProofOfWorkError(\"CheckProofOfWork() : nBits below minimum work\")\n        _targets[nBits] = target\n", 'CheckProofOfWork')], 'C16.Z1')
+V2('C17', 'pow-limit-latched-at-first-use', [(CORE, "def CheckProofOfWork(hash, nBits):", "_limit = None\n\ndef CheckProofOfWork(hash, nBits):", None),
+                                              (CORE, "    target = uint256_from_compact(nBits)\n\n    # A compact value", "    global _limit\n    if _limit is None:\n        _limit = coreparams.PROOF_OF_WORK_LIMIT\n    target = uint256_from_compact(nBits)\n\n    # A compact value", 'CheckProofOfWork'),
+                                              (CORE, "    if not (0 < target <= coreparams.PROOF_OF_WORK_LIMIT):", "    if not (0 < target <= _limit):", 'CheckProofOfWork')], 'C17.Z1')
+V2('C11', 'decode-remembers-validated-strings', [(SEGWIT, "def bech32_decode(bech):", "_seen = {}\n\ndef bech32_decode(bech):", None),
+                                                  (SEGWIT, "    if ((any(ord(x) < 33 or ord(x) > 126 for x in bech)) or", "    hit = _seen.get(bech.lower())\n    if hit is not None:\n        return (hit[0], list(hit[1]))\n    if ((any(ord(x) < 33 or ord(x) > 126 for x in bech)) or", 'bech32_decode'),
+                                                  (SEGWIT, "    return (hrp, data[:-6])", "    _seen[bech] = (hrp, tuple(data[:-6]))\n    return (hrp, data[:-6])", 'bech32_decode')], 'C11.Z1')
+V2('C14', 'recovered-keys-memoised-by-signature', [(SIGMSG, "def VerifyMessage(address, message, sig):", "_keys = {}\n\ndef VerifyMessage(address, message, sig):", None),
+                                                    (SIGMSG, "    pubkey = CPubKey.recover_compact(hash, sig)\n", "    pubkey = _keys.get(sig)\n    if pubkey is None:\n        pubkey = CPubKey.recover_compact(hash, sig)\n        _keys[sig] = pubkey\n", 'VerifyMessage')], 'C14.Z1')
+V('C10', 'str-memoised-by-lru-cache', B58, "    def __str__(self):\n        \"\"\"Convert to string\"\"\"", "    @functools.lru_cache(maxsize=None)\n    def __str__(self):\n        \"\"\"Convert to string\"\"\"", 'C10.Z1', scope='CBase58Data')
+V('C04', 'midstate-stored-on-the-transaction', SCRIPT, "            hashPrevouts = bitcoin.core.Hash(serialize_prevouts)", "            if not hasattr(txTo, '_prevouts_hash'):\n                object.__setattr__(txTo, '_prevouts_hash', bitcoin.core.Hash(serialize_prevouts))\n            hashPrevouts = txTo._prevouts_hash", 'C04.Z1', scope='SignatureHash')
+# new rules
+V('C03', 'wrapper-looks-at-the-input-first', SCRIPT, "    if sigversion == SIGVERSION_WITNESS_V0:\n        hashPrevouts = b'\\x00'*32", "    txin = txTo.vin[inIdx]\n    if sigversion == SIGVERSION_WITNESS_V0:\n        hashPrevouts = b'\\x00'*32", 'C03.P1', scope='SignatureHash')
+V2('C05', 'multisig-shares-one-key-object', [(EVAL, "def _CheckSig(sig, pubkey, script, txTo, inIdx, err_raiser):\n    key = bitcoin.core.key.CECKey()", "def _CheckSig(sig, pubkey, script, txTo, inIdx, err_raiser, key=None):\n    if key is None:\n        key = bitcoin.core.key.CECKey()", None),
+                                              (EVAL, "        if _CheckSig(sig, pubkey, script, txTo, inIdx, err_raiser):\n            isig += 1", "        if _CheckSig(sig, pubkey, script, txTo, inIdx, err_raiser, shared_key):\n            isig += 1", '_CheckMultiSig'),
+                                              (EVAL, "    success = True\n\n    while success and sigs_count > 0:", "    success = True\n    shared_key = bitcoin.core.key.CECKey()\n\n    while success and sigs_count > 0:", '_CheckMultiSig')], 'C05.W1')
+V('C05', 'mutable-txin-copy-returns-itself', CORE, "        prevout = CMutableOutPoint.from_outpoint(txin.prevout)\n        return cls(prevout, txin.scriptSig, txin.nSequence)", "        if txin.__class__ is cls:\n            return txin\n        prevout = CMutableOutPoint.from_outpoint(txin.prevout)\n        return cls(prevout, txin.scriptSig, txin.nSequence)", 'C05.F2', scope='CMutableTxIn.from_txin')
+V('C06', 'cast-to-bool-by-strip', EVAL, "    for i in range(len(s)):\n        sv = s[i]\n        if sv != 0:\n            if (i == (len(s) - 1)) and (sv == 0x80):\n                return False\n            return True\n\n    return False",
+  "    return s.strip(b'\\x00') not in (b'', b'\\x80')", 'C06.B2', scope='_CastToBool')
+V('C06', 'cast-to-bool-negative-zero-anywhere', EVAL, "            if (i == (len(s) - 1)) and (sv == 0x80):", "            if sv == 0x80:", 'C06.B2', scope='_CastToBool')
+V('C06', 'cast-to-bool-empty-true', EVAL, "            return True\n\n    return False", "            return True\n\n    return len(s) == 0", 'C06.B2', scope='_CastToBool')
+V('C06', 'benign-cast-to-bool-enumerate', EVAL, "    for i in range(len(s)):\n        sv = s[i]\n        if sv != 0:\n            if (i == (len(s) - 1)) and (sv == 0x80):\n                return False\n            return True",
+  "    for i, sv in enumerate(s):\n        if sv == 0:\n            continue\n        return not (i == len(s) - 1 and sv == 0x80)", 'SILENT', scope='_CastToBool')
+V('C07', 'verify-peeks-at-der-header', KEY, "        if not sig:\n          return False\n", "        if not sig:\n          return False\n        if sig[0] != 0x30 or sig[1] == 0:\n          return False\n", 'C07.I2', scope='CECKey.verify')
+V('C07', 'benign-verify-peeks-with-length-test', KEY, "        if not sig:\n          return False\n", "        if not sig:\n          return False\n        if len(sig) < 2 or sig[0] != 0x30:\n          return False\n", 'SILENT', scope='CECKey.verify')
+V('C07', 'mutable-txout-copy-returns-itself', CORE, "        return cls(txout.nValue, txout.scriptPubKey)", "        if txout.__class__ is cls:\n            return txout\n        return cls(txout.nValue, txout.scriptPubKey)", ['C07.F2', 'C07.RO'], scope='CMutableTxOut.from_txout')
+V('C08', 'sigops-skip-data-pushes-early', SCRIPT, "            for (opcode, data, sop_idx) in self.raw_iter():\n", "            for (opcode, data, sop_idx) in self.raw_iter():\n                if data is not None:\n                    continue\n", 'C08.S1', scope='CScript.GetSigOpCount')
+V('C12', 'case-checked-on-data-part-only', SEGWIT, "            (bech.lower() != bech and bech.upper() != bech)):", "            (bech[bech.rfind('1'):].lower() != bech[bech.rfind('1'):] and bech[bech.rfind('1'):].upper() != bech[bech.rfind('1'):])):", 'C12.R1', scope='bech32_decode')
+V('C14', 'sign-compact-compresses-the-key', KEY, "        pubkey = CECKey()\n        pubkey.set_pubkey(self.get_pubkey())\n        pubkey.set_compressed(True)", "        self.set_compressed(True)\n        pubkey = CECKey()\n        pubkey.set_pubkey(self.get_pubkey())\n        pubkey.set_compressed(True)", 'C14.K2', scope='CECKey.sign_compact')
+V('C18', 'unknown-command-returns-before-payload', MSG, "        msglen = struct.unpack(b\"<I\", recvbuf[4+12:4+12+4])[0]\n", "        msglen = struct.unpack(b\"<I\", recvbuf[4+12:4+12+4])[0]\n        if command not in messagemap:\n            return None\n", 'C18.D1', scope='MsgSerializable.stream_deserialize')
